@@ -1003,3 +1003,31 @@ def mpe(text, use_semiring=False):
         a = -f if neg else f
         out.append([str(a), 0 if neg else 1])
     return {"unsat": False, "prob": float(prob) if prob is not None else None, "facts": out}
+
+
+# ------------------------------------------------------------------ C21 DT-ProbLog
+def dt(text, search="exhaustive"):
+    from problog.program import PrologString
+    from problog.tasks.dtproblog import dtproblog
+    result, score, stats = dtproblog(PrologString(text), search=search)
+    return {"choices": {str(k): int(v) for k, v in result.items()}, "score": float(score), "evals": stats.get("eval")}
+
+
+def local_search_replay(tables):
+    """Run the real search_local on scripted score tables. tables: [{'id', 'n', 'table': [{'c': bits, 'v': int}]}]"""
+    from problog.tasks.dtproblog import search_local
+    from problog.logic import Term
+    out = []
+    for t in tables:
+        n = t["n"]
+        names = [Term("d%d" % i) for i in range(1, n + 1)]
+        score = {tuple(e["c"]): e["v"] for e in t["table"]}
+        s = Term("s")
+
+        class Fake(object):
+            def evaluate(self, weights=None, **kw):
+                bits = tuple(int(weights[nm]) for nm in names)
+                return {s: float(score[bits])}
+        choices, best, stats = search_local(Fake(), [(i + 1, nm) for i, nm in enumerate(names)], {s: 1.0}, [])
+        out.append({"id": t["id"], "res": [int(choices[nm]) for nm in names], "best": int(round(best)), "evals": stats["eval"]})
+    return {"results": out}
